@@ -230,6 +230,16 @@ impl Proto for V4 {
             Pk::UnsubAck(i) => c4::Packet::UnsubAck(c4::UnsubAck::new(*i)),
             Pk::PingResp => c4::Packet::PingResp,
             Pk::PingReq => c4::Packet::PingReq,
+            Pk::Subscribe(i) => {
+                let mut s = c4::Subscribe::new("s/#", QoS::AtLeastOnce);
+                s.pkid = *i;
+                c4::Packet::Subscribe(s)
+            }
+            Pk::Unsubscribe(i) => {
+                let mut u = c4::Unsubscribe::new("s/#");
+                u.pkid = *i;
+                c4::Packet::Unsubscribe(u)
+            }
             Pk::Disconnect => c4::Packet::Disconnect,
             other => crate::vcore::machinery_error(&format!("cannot encode {other:?} as a broker packet")),
         };
